@@ -283,6 +283,56 @@ def table_facts(desc, iam):
     }
 
 
+def variant_facts(desc, facts, args, iam):
+    """The Variant objects exactly as VcfWriter.write obtains them (ts.variants(samples=
+    self.samples, isolated_as_missing=...)): alleles incl. the trailing None, num_alleles,
+    has_missing_data, genotypes.  Only for layouts the documentation accepts."""
+    v, lay = expected_layout(facts, args.get("ploidy"), args.get("individuals"))
+    if v != "ok":
+        return None
+    cols = [u for g in lay for u in g]
+    if len(set(cols)) != len(cols) or any(not facts["node_flags"][u] & 1 for u in cols):
+        return None
+    by_individuals = any(i != NULL for i in facts["node_individual"]) and (
+        args.get("individuals") is not None or any(facts["node_individual"][u] != NULL for u in facts["samples"]))
+    ts = gen_ts.build_tables(desc).tree_sequence()
+    out = []
+    try:
+        for var in ts.variants(samples=cols if by_individuals else None, isolated_as_missing=iam):
+            out.append({"alleles": list(var.alleles), "num_alleles": int(var.num_alleles),
+                        "has_missing": bool(var.has_missing_data), "genotypes": [int(x) for x in var.genotypes]})
+    except Exception as e:
+        return {"err": "%s: %s" % (type(e).__name__, str(e)[:100])}
+    return {"cols": cols, "variants": out}
+
+
+def check_variants(facts, vf):
+    """C03 tie: the per-variant view the writer consumes agrees with the genotype matrix and
+    with the alleles of the tables; the trailing None of .alleles is there iff data is missing."""
+    out = []
+    if vf is None:
+        return out
+    if "err" in vf:
+        return [("variant-decode-error", vf["err"])]
+    col_of = {u: k for k, u in enumerate(facts["samples"])}
+    if len(vf["variants"]) != len(facts["sites"]):
+        return [("variant-count", "%d variants for %d sites" % (len(vf["variants"]), len(facts["sites"])))]
+    for j, (var, st) in enumerate(zip(vf["variants"], facts["sites"])):
+        want = [facts["G"][j][col_of[u]] for u in vf["cols"]]
+        al = site_alleles(st)
+        miss = any(g == -1 for g in want)
+        if var["genotypes"] != want:
+            out.append(("variant-genotypes", "site %d: %r vs matrix %r" % (j, var["genotypes"], want)))
+        elif var["alleles"][:var["num_alleles"]] != al or var["num_alleles"] != len(al):
+            out.append(("variant-alleles", "site %d: %r (num_alleles %d) vs %r" % (j, var["alleles"], var["num_alleles"], al)))
+        elif var["has_missing"] != miss or (var["alleles"][-1:] == [None]) != miss or \
+                len(var["alleles"]) != len(al) + (1 if miss else 0):
+            out.append(("variant-missing-flag", "site %d: has_missing_data %r, alleles %r, genotypes %r" % (j, var["has_missing"], var["alleles"], want)))
+        if out:
+            break
+    return out
+
+
 def sub_mask(spec, keep):
     if spec is None:
         return None
@@ -296,6 +346,7 @@ def observe_case(case):
     iam = args.get("isolated_as_missing")
     iam = True if iam is None else iam
     obs = {"facts": table_facts(desc, iam)}
+    obs["variants"] = variant_facts(desc, obs["facts"], args, iam)
     obs["main"] = run_vcf(desc, args, args.get("site_mask"), args.get("sample_mask"))
     ns = len(desc["sites"])
     sm = args.get("site_mask")
@@ -480,7 +531,9 @@ def check_run(case, facts, run, exp, tag=""):
         return [("harness-build" + tag, run["build_err"])]
     got = verdict_of(run)
     if exp["verdict"] == "nosamples":
-        if got != "ok":
+        # a VCF without sample columns or a documented ValueError; anything else (the
+        # IndexError of the pinned code) is the zero-samples finding
+        if got not in ("ok", "ValueError"):
             out.append(("zero-samples-%s" % got.lower(), "no sample nodes: %s %s" % (got, run.get("msg"))))
         return out
     init_stage_error = exp.get("stage") == "init"
@@ -512,6 +565,11 @@ def check_run(case, facts, run, exp, tag=""):
         out.append(("header-contig" + tag, "expected %r in %r" % (exp["contig"], meta)))
     if not meta or meta[0] != "##fileformat=VCFv4.2":
         out.append(("header-fileformat" + tag, repr(meta[:1])))
+    want_meta = ["##fileformat=VCFv4.2", "##source=tskit %s" % facts["version"],
+                 '##FILTER=<ID=PASS,Description="All filters passed">', exp["contig"],
+                 '##FORMAT=<ID=GT,Number=1,Type=String,Description="Genotype">']
+    if meta != want_meta and not out:
+        out.append(("header-lines" + tag, "meta lines %r, expected %r" % (meta, want_meta)))
     if header != exp["chrom"]:
         out.append(("header-names" + tag, "expected %r got %r" % (exp["chrom"], header)))
     if len(rows) != len(exp["lines"]):
@@ -547,6 +605,7 @@ def oracle_case(case, obs):
     facts = obs["facts"]
     exp = expect(case, facts)
     out = check_run(case, facts, obs["main"], exp)
+    out += check_variants(facts, obs.get("variants"))
     args = case["args"]
     main = obs["main"]
     for other in ("perturbed", "deleted"):
@@ -703,6 +762,27 @@ def gen_case(rng, many_alleles=False):
     if not any(nd[0] & 1 for nd in desc["nodes"]) and rng.random() < 0.85:
         return gen_case(rng, many_alleles)
     if many_alleles and rng.random() < 0.8:
+        if rng.random() < 0.5:
+            # cut every site down to at most 8 mutations: exactly 9 alleles is the documented maximum
+            cnt = {}
+            keep = []
+            for k, m in enumerate(desc["mutations"]):
+                cnt[m[0]] = cnt.get(m[0], 0) + 1
+                keep.append(cnt[m[0]] <= 8)
+            orig_parent = [m[3] for m in desc["mutations"]]
+            remap, new = {}, []
+            for k, m in enumerate(desc["mutations"]):
+                if keep[k]:
+                    remap[k] = len(new)
+                    new.append(m)
+            for k, m in enumerate(desc["mutations"]):
+                if not keep[k]:
+                    continue
+                par = orig_parent[k]
+                while par != NULL and not keep[par]:
+                    par = orig_parent[par]
+                m[3] = NULL if par == NULL else remap[par]
+            desc["mutations"] = new
         seen = {}
         for m in desc["mutations"]:
             k = seen.get(m[0], 0)
@@ -746,10 +826,11 @@ def gen_case(rng, many_alleles=False):
     return {"desc": desc, "args": args, "perturb": rng.choice(["pile10", "strip"])}
 
 
-def star_desc(nsamples, sites, L=10):
-    """nsamples leaves under one root; sites = [(position, ancestral, [(node, derived)])]."""
+def star_desc(nsamples, sites, L=10, isolated=()):
+    """nsamples leaves under one root (those in `isolated` have no edge: missing data);
+    sites = [(position, ancestral, [(node, derived)])]."""
     nodes = [[1, 0, NULL, NULL, ""] for _ in range(nsamples)] + [[0, 1, NULL, NULL, ""]]
-    edges = [[0, L, nsamples, c, ""] for c in range(nsamples)]
+    edges = [[0, L, nsamples, c, ""] for c in range(nsamples) if c not in isolated]
     srows, muts = [], []
     for s, (p, a, ms) in enumerate(sites):
         srows.append([p, a, ""])
@@ -779,6 +860,26 @@ def directed_cases():
         if mask is not None:
             a["site_mask"] = {"form": "bool_array", "values": mask}
         out.append({"desc": star_desc(3, sites), "args": a})
+    # exactly the documented maximum of 9 alleles, with and without missing data / masks;
+    # 10 alleles with missing data
+    for sites in (nine, ten):
+        for iam in (None, True, False):
+            for sm in (None, {"form": "list", "values": [0, 0, 1, 0]}, {"form": "callable", "values": [[0, 1, 0, 0]]}):
+                a = {"isolated_as_missing": iam}
+                if sm is not None:
+                    a["sample_mask"] = sm
+                out.append({"desc": star_desc(4, sites, isolated=(3,)), "args": a})
+                out.append({"desc": star_desc(4, sites), "args": dict(a)})
+    out.append({"desc": star_desc(4, nine + [(7, "G", [(1, "T")])], isolated=(2, 3)), "args": {"ploidy": 2}})
+    # a subset / permutation of the individuals with a fixed sample mask of the written length
+    for inds, vals in (([1], [0, 1]), ([0], [1, 0]), ([2, 0], [0, 1, 1, 0]), ([1, 2], [1, 0, 0, 1]), (None, [0, 1, 0, 1, 0, 1])):
+        for form in ("list", "bool_array", "int_array", "uint8_array", "callable"):
+            d = star_desc(6, base_sites[1:], isolated=(5,))
+            for u in range(6):
+                d["nodes"][u][3] = u // 2
+            d["individuals"] = [[0, [], [], ""] for _ in range(3)]
+            sm = {"form": form, "values": [vals, vals] if form == "callable" else vals}
+            out.append({"desc": d, "args": {"individuals": inds, "sample_mask": sm}})
     # zero samples / zero sites / zero nodes
     d = star_desc(2, base_sites[1:])
     for nd in d["nodes"]:
@@ -969,6 +1070,10 @@ def coq_term(case, obs):
         nm = "None" if names is None else "(Some [%s])" % "; ".join(cbytes(x) for x in names)
         terms.append("res_eqb zlist_eqb (do ns <- header_names %s %d%%nat; Ok (chrom_line ns)) (Ok %s)"
                      % (nm, len(groups), cbytes(lines[k])))
+        terms.append("res_eqb (list_eqb zlist_eqb) (do ns <- header_names %s %d%%nat; "
+                     "Ok (vcf_header %s %s (contig_length %s %s) ns)) (Ok [%s])"
+                     % (nm, len(groups), cbytes(facts["version"]), cbytes(contig), zc(raw), zl(tp),
+                        "; ".join(cbytes(x) for x in lines[:k + 1])))
         clen = [ln for ln in lines[:k] if ln.startswith("##contig=")][0]
         length = clen.rsplit("length=", 1)[1].rstrip(">")
         terms.append("(contig_length %s %s =? %s)" % (zc(raw), zl(tp), zc(int(length))))
@@ -1033,7 +1138,7 @@ class Mapping(Family):
         v, lay = expected_layout(obs, a.get("ploidy"), a.get("individuals"))
         out = []
         if v == "nosamples":
-            if "err" in obs:
+            if "err" in obs and obs["err"] != "ValueError":
                 out.append(("zero-samples-%s" % obs["err"].lower(), "no sample nodes: %s" % obs.get("msg")))
             return out
         got = obs.get("err", "ok")
@@ -1078,7 +1183,117 @@ class Mapping(Family):
                 "groups": min(len(obs.get("groups", [])), 5)}
 
 
-FAMILIES = [Directed, Mapping, Vcf]
+# ----------------------------------------------------------------------------------
+# end to end: tables + tree arrays -> VCF through C03's decode model
+# ----------------------------------------------------------------------------------
+
+
+def tree_arrays(ts, x):
+    """arrays of a fresh tree (sample lists on) at position x — what genotypes.c reads"""
+    import tskit
+    t = tskit.Tree(ts, sample_lists=True)
+    t.seek(x)
+    n = ts.num_nodes
+    return {"lc": [int(v) for v in t.left_child_array], "rs": [int(v) for v in t.right_sib_array],
+            "ls": [int(t.left_sample(u)) for u in range(n)], "rsam": [int(t.right_sample(u)) for u in range(n)],
+            "ns": [int(t.next_sample(k)) for k in range(ts.num_samples)], "vr": int(t.virtual_root)}
+
+
+class Decoded(Family):
+    """The VCF body from the tables: make_sample_mapping -> C03 variant_init/decode per site ->
+    vcf_body_current, against as_vcf.  Genotypes, alleles and has_missing_data are computed by
+    the models, not taken from the implementation."""
+    name = "decoded"
+    workers = 6
+    shard = 100
+    timeout = 60.0
+    prelude = ("From TskVerif Require Import Base.Common C16.Model C16.Decode.\n"
+               "From TskVerif Require C03.Model.\nOpen Scope Z_scope.")
+
+    def generate(self, rng, tier):
+        n = 350 if tier == "quick" else 5000
+        k = 0
+        while k < n:
+            c = gen_case(rng, many_alleles=(k % 5 == 0))
+            a = c["args"]
+            if a.get("individuals") is not None and len(set(a["individuals"])) != len(a["individuals"]):
+                continue
+            if a.get("position_transform") == "drop_last":
+                a["position_transform"] = None
+            if a.get("individual_names") is not None:
+                a["individual_names"] = None
+            k += 1
+            yield c
+
+    def observe(self, case):
+        desc, args = case["desc"], case["args"]
+        iam = args.get("isolated_as_missing")
+        iam = True if iam is None else iam
+        facts = table_facts(desc, iam)
+        obs = {"facts": facts, "main": run_vcf(desc, args, args.get("site_mask"), args.get("sample_mask"))}
+        ts = gen_ts.build_tables(desc).tree_sequence()
+        obs["trees"] = [tree_arrays(ts, float(st[0])) for st in facts["sites"]] if ts.num_nodes else []
+        obs["mut_nodes"] = [[int(m.node) for m in ts.tables.mutations if m.site == j] for j in range(ts.num_sites)]
+        return obs
+
+    def oracle(self, case, obs):
+        return check_run(case, obs["facts"], obs["main"], expect(case, obs["facts"]))
+
+    def coq_check(self, case, obs):
+        facts, main, args = obs["facts"], obs["main"], case["args"]
+        if "build_err" in main or not facts["node_flags"]:
+            return None
+        if "err" in main:
+            code = {"ValueError": 1, "TypeError": 2, "IndexError": 3, "LibraryError": 4}.get(main["err"])
+            if code is None:
+                return None
+            expected = "(Err %d)" % code
+        else:
+            lines = main["text"].split("\n")
+            k = next(i for i, ln in enumerate(lines) if ln.startswith("#CHROM"))
+            expected = "(Ok [%s])" % "; ".join(cbytes(ln + "\n") for ln in lines[k + 1:-1])
+        pos = [st[0] for st in facts["sites"]]
+        tp, _cl = expected_positions(args.get("position_transform"), pos, facts["L"])
+        ns = len(pos)
+        smask = args.get("sample_mask")
+        sites = []
+        for j, st in enumerate(facts["sites"]):
+            a = obs["trees"][j]
+            tree = "(C03.Model.mkTree %s %s %s %s %s %s)" % (zl(a["lc"]), zl(a["rs"]), zl(a["ls"]), zl(a["rsam"]),
+                                                           zl(a["ns"]), zc(a["vr"]))
+            site = "(C03.Model.mkSite %s [%s])" % (cbytes(st[1]), "; ".join(
+                "(%s, %s)" % (zc(n), cbytes(d)) for n, d in zip(obs["mut_nodes"][j], st[2])))
+            if smask is None:
+                m = "None"
+            elif smask["form"] == "callable":
+                m = "(Some %s)" % bl(smask["values"][j])
+            else:
+                m = "(Some %s)" % bl(mask_bools(smask, 0))
+            sites.append("mk_site_in %s %s %s %s" % (tree, site, zc(tp[j]), m))
+        nodes = "[" + "; ".join("(%s, %s)" % (cbool(f & 1), zc(i))
+                                for f, i in zip(facts["node_flags"], facts["node_individual"])) + "]"
+        imap = [NULL] * len(facts["node_flags"])
+        for kk, u in enumerate(facts["samples"]):
+            imap[u] = kk
+        iam = args.get("isolated_as_missing")
+        iam = True if iam is None else iam
+        contig = "1" if args.get("contig_id") is None else args["contig_id"]
+        pl = "None" if args.get("ploidy") is None else "(Some %s)" % zc(args["ploidy"])
+        inds = "None" if args.get("individuals") is None else "(Some %s)" % zl(args["individuals"])
+        return ("lines_eqb (vcf_end_to_end %s %s %s %s %s %s %s %s %s [%s] %s %s) %s"
+                % (nodes, zl(facts["node_flags"]), zc(facts["num_individuals"]), pl, inds, zl(facts["samples"]),
+                   zl(imap), cbool(iam), cbytes(contig), "; ".join(sites), mask_term(args.get("site_mask")),
+                   cbool(bool(args.get("allow_position_zero"))), expected))
+
+    def nontrivial(self, case, obs):
+        return "text" in obs.get("main", {}) and obs["main"]["text"].count("\n") > 6
+
+    def describe(self, case, obs):
+        return {"verdict": verdict_of(obs["main"]), "sites": len(case["desc"]["sites"]),
+                "individuals_arg": "none" if case["args"].get("individuals") is None else "given"}
+
+
+FAMILIES = [Directed, Mapping, Decoded, Vcf]
 NOT_COVERED = [
     "alleles / names / contig ids containing TAB, NL or ',' (documented as unchecked, produce a broken VCF)",
     "write_vcf to a path or binary stream, the CLI wrapper (tskit vcf)",
